@@ -58,7 +58,7 @@ func (g *TxGen) vrfDriver() *vrfDriver {
 
 // exact reports whether the epoch's plan fixes the number of proofs (no unplanned provers then).
 func (d *vrfDriver) exact() bool {
-	return d.mood == "silent" || d.mood == "one-below-threshold" || d.mood == "exactly-threshold"
+	return d.mood == "silent" || d.mood == "one-below-threshold" || d.mood == "exactly-threshold" || d.mood == "validators-withhold"
 }
 
 func (d *vrfDriver) anchor(n *SimNode) bool {
@@ -117,7 +117,12 @@ func (d *vrfDriver) txs(height int64) []*GenTx {
 		d.prevAlpha, d.curAlpha = d.curAlpha, append([]byte(nil), st.Alpha...)
 		d.sent, d.tried = map[signature.PublicKey]*vrfSent{}, map[signature.PublicKey]bool{}
 		d.plan = map[*SimNode]int64{}
-		switch x := rng.IntN(12); {
+		switch x := rng.IntN(14); {
+		case x >= 12:
+			// Only nodes without the validator role prove, plus fewer validator nodes than the scheduler's
+			// minimum: enough proofs in the map, too few from validators (the validator election must fall
+			// back to the epoch entropy, not fail).
+			d.mood = "validators-withhold"
 		case x < 3:
 			d.mood = "full"
 		case x < 6:
@@ -174,6 +179,29 @@ func (d *vrfDriver) txs(height int64) []*GenTx {
 				}
 			}
 		}
+		if d.mood == "validators-withhold" {
+			nonVal := 0
+			for _, n := range regd {
+				if n.Roles&node.RoleValidator == 0 {
+					nonVal++
+				}
+			}
+			if nonVal == 0 {
+				d.mood = "normal"
+			} else {
+				left := g.h.Sc.P.MinValidators - 1
+				for _, i := range rng.Perm(len(regd)) {
+					n := regd[i]
+					switch {
+					case n.Roles&node.RoleValidator == 0:
+						chosen[n] = true
+					case left > 0 && rng.IntN(2) == 0:
+						chosen[n] = true
+						left--
+					}
+				}
+			}
+		}
 		d.Moods[d.mood]++
 		sparseP := 1 + rng.IntN(3) // of 4
 		for _, n := range g.h.Sc.AllNodes() {
@@ -185,7 +213,7 @@ func (d *vrfDriver) txs(height int64) []*GenTx {
 				prove = d.anchor(n) || rng.IntN(4) < sparseP
 			case "silent":
 				prove = false
-			case "one-below-threshold", "exactly-threshold":
+			case "one-below-threshold", "exactly-threshold", "validators-withhold":
 				prove = chosen[n]
 			}
 			at := first
